@@ -289,7 +289,9 @@ func c20DocFor(r *rng) *Doc {
 	var obj func(depth int) *Doc
 	obj = func(depth int) *Doc {
 		d := &Doc{K: 'o'}
-		for _, k := range c20Sub {
+		off := r.Intn(len(c20Sub))
+		for i := 0; i < 4; i++ { // four of the keys per object keeps documents the size they had with a four-key alphabet
+			k := c20Sub[(off+i*3)%len(c20Sub)]
 			if r.Intn(4) == 0 {
 				continue
 			}
